@@ -190,8 +190,7 @@ SwallowCounts(sc, s, f) ==
       endOf(k) == IF k = 0 THEN 0 ELSE sc.vals[k].e
   IN IF sc.err # 0 /\ s[sc.err] \in {"]", "}"} /\ AllWS(s, endOf(n) + 1, sc.err - 1) THEN {n}
      ELSE IF f.kind = "ioerr" /\ sc.err = 0
-          THEN {k \in MustCount(sc, lim)..MayCount(sc, lim, FALSE) :
-                   AllWS(s, endOf(k) + 1, lim) /\ (k = n \/ sc.vals[k + 1].s > lim \/ k + 1 > n)}
+          THEN {k \in MustCount(sc, lim)..MayCount(sc, lim, FALSE) : AllWS(s, endOf(k) + 1, lim)}
           ELSE {}
 
 \* ---------------------------------------------------------------------------
